@@ -20,6 +20,7 @@ EXPLANATION = (
     "Hermitian (diagonal) contribution -- the detuning coefficient and the van der Waals term -- carries the factor 1/2, the amplitude coefficient is 0.5*amp*exp(-1j*phase); the Global and Local branches build identical coefficient "
     "expressions. GUARD: make_xy_term iff the interaction is 'XY', vdW otherwise; SLM-masked pairs are skipped only in XY; the interaction is built iff 'digital' is not the basis; C6/R^6 and C3(1-3cos^2)/R^3 shapes (powers). "
     "NOT decided: every matrix entry / numeric equality with the formula (runtime). GUARD (added): the per-run noise state (_bad_atoms, _doppler_detune) is reset by set_config exactly under the negation of the condition under which _update_noise redraws it (complementary guards at two sites)."
+    " GUARD (round 3): every coefficient array built for _adapt_to_sampling_rate has the length of the sampling grid (self._duration), so the interaction switches at the same sample as the drive."
 )
 ASSUMPTIONS = ["coefficient formulas are matched on the symbolic normal form (pstatic/sym.py) up to permutation of factors; operator products (|x><y|) are matched in order", "the documented convention is read from docs/source/conventions.md"]
 
@@ -224,6 +225,21 @@ def run(E: Engine, rep: Report, tier: str) -> dict:
     rep.check(slm_ok, "GUARD", "_construct_hamiltonian|time-dependent-mask-only-xy", "the masked/unmasked interaction split exists only with an SLM mask in XY", "the SLM-mask interaction split condition changed", E.where(ch))
     cz_ = [l for l in Sc2.logged("store") if l.fn == ch.short and l.target is not None and l.target[0] == "idx" and l.value == ("const", 0) and is_(unobj(l.target[1]), "np.ones(Q_n)") is not None]
     rep.check(bool(cz_) and all(is_(l.target[2], "slice(0, self.samples_obj._slm_mask.end)") is not None for l in cz_), "GUARD", "_construct_hamiltonian|unmasked-off-during-mask", "full interaction switched off exactly during [0, mask end)", "the mask interval of the interaction coefficient changed", E.where(ch))
+    # every coefficient array is sampled like the time grid: _adapt_to_sampling_rate picks len-proportional indices,
+    # so an array shorter than the grid (np.ones(self._duration - 1)) is read one sample late towards its end -- the
+    # interaction would switch on one sample after the mask ended, while the drive switches at the mask end
+    n_arr = 0
+    for l in Sc2.calls("_adapt_to_sampling_rate"):
+        a0 = unobj(arg(l, 0)) if arg(l, 0) is not None else None
+        if a0 is None:
+            continue
+        for t in sym.subterms(a0):
+            if t[0] == "call" and t[1][0] == "attr" and t[1][1] == ("name", "np") and t[1][2] in ("ones", "zeros", "full", "arange") and t[2]:
+                n_arr += 1
+                same = unobj(t[2][0]) == sym.Pattern("self._duration").term
+                rep.check(same, "GUARD", f"_construct_hamiltonian|coefficient-array-has-grid-length|{sh(t, 40)}", "np.ones(self._duration): one entry per sampling time", f"the coefficient array `{sh(t, 60)}` does not have the length of the sampling grid (np.arange(self._duration)): _adapt_to_sampling_rate maps it onto the grid by proportional indices, so its values are read one sample late and the interaction of a masked atom stays off for one sample after the SLM mask ended", E.where(ch, l.node))
+    if n_arr < 1:
+        rep.error("no coefficient array built for _adapt_to_sampling_rate found in _construct_hamiltonian")
     # per-run noise state: it is reset by set_config exactly when _update_noise will not redraw it
     un = E.method(HAM, "_update_noise")
     sc = E.method(HAM, "set_config")
